@@ -143,6 +143,68 @@ def ordered {K V : Type} [DecidableEq K] [DecidableEq V] (cmp : K → K → Orde
       | _, _ => bad
   | _ => bad
 
+/-- `k1 v1 k2 v2 …` -/
+def cvPairs {K2 : Type} (kc2 : Codec K2) : List String → Option (List (K2 × Int))
+  | [] => some []
+  | k :: v :: r => match kc2.parse k, v.toInt?, cvPairs kc2 r with
+    | some k, some v, some t => some ((k, v) :: t)
+    | _, _, _ => none
+  | [_] => none
+
+/-- `cv <variant> k1 v1 k2 v2 …`: a source map built with `set` in the given order, converted by the converting
+constructor (`Map<K,T>(const Map<K2,T2>&)`, or `Dic<T>(const Map<K2,T2>&)` when `dic`), then: the raw layout of the
+result (foreach), `has`/`get(·, -1)` of every converted source key, `==` against the map built by inserting the
+converted records one by one, and `remove` of the first converted key (result, `has` afterwards, length) -/
+def cvOut {K2 K : Type} [DecidableEq K] (cmp2 : K2 → K2 → Ordering) (cmp : K → K → Ordering) (fk : K2 → K)
+    (kc2 : Codec K2) (kc : Codec K) (dic : Bool) (args : List String) : String :=
+  match cvPairs kc2 args with
+  | none => "bad-op"
+  | some ps =>
+    let src := ps.foldl (fun acc kv => match acc with
+      | none => none
+      | some a => Map.set cmp2 a kv.1 kv.2) (some [])
+    match src.bind Map.walk with
+    | none => "model-oob"
+    | some es =>
+      let conv := if dic then Map.convertDic cmp 0 fk (fun v : Int => v) es else Map.convert cmp fk (fun v : Int => v) es
+      let ref := es.foldl (fun acc kv => match acc with
+        | none => none
+        | some a => Map.set cmp a (fk kv.1) kv.2) (some [])
+      match conv, ref with
+      | some c, some r =>
+        match Map.walk c with
+        | none => "model-oob"
+        | some ws =>
+          let layout := toString c.length :: ws.map fun kv => kc.shw kv.1 ++ ":" ++ toString kv.2
+          let probes := es.map fun kv =>
+            match Map.has cmp c (fk kv.1), Map.get cmp c (fk kv.1) (-1) with
+            | some h, some g => b01 h ++ " " ++ toString g
+            | _, _ => "oob"
+          let rem := match es with
+            | [] => "-"
+            | kv :: _ => match Map.remove cmp c (fk kv.1) with
+              | some (c', x) => match Map.has cmp c' (fk kv.1) with
+                | some h => s!"{b01 x} {b01 h} {c'.length}"
+                | none => "oob"
+              | none => "oob"
+          join (layout ++ ["|"] ++ probes ++ ["|", b01 (Map.eq c r), "|", rem])
+      | _, _ => "model-oob"
+
+/-- decimal text of an `int` as the bytes of `String(int)` -/
+def decBytes (i : Int) : Bytes := (toString i).toUTF8.toList
+
+/-- `double -> int` conversion of the key `q/4` (exactly representable): truncation toward zero -/
+def truncQuarter (q : Int) : Int := Int.tdiv q 4
+
+def cv (ts : List String) : String :=
+  match ts with
+  | "i2s" :: r => cvOut Map.cmpInt Map.cmpBytes decBytes intCodec bytesCodec false r   -- Map<int,int> -> Map<String,int>
+  | "d2i" :: r => cvOut Map.cmpInt Map.cmpInt truncQuarter intCodec intCodec false r    -- Map<double,int> (keys q/4) -> Map<int,int>
+  | "i2l" :: r => cvOut Map.cmpInt Map.cmpInt (fun k => k) intCodec intCodec false r     -- Map<int,int> -> Map<int,long long>
+  | "i2d" :: r => cvOut Map.cmpInt Map.cmpBytes decBytes intCodec bytesCodec true r    -- Map<int,int> -> Dic<int>
+  | "s2s" :: r => cvOut Map.cmpBytes Map.cmpBytes (fun k => k) bytesCodec bytesCodec false r  -- Dic<int> -> Dic<long long>
+  | _ => "bad-op"
+
 /-- ops on one family of hash maps (`HashMap<K,V>`) -/
 def hashed {K V : Type} [DecidableEq K] [DecidableEq V] (h : K → Nat) (kc : Codec K) (vc : Codec V)
     (dflt : V) (sl : Array (HashMap.HM K V)) (ts : List String) : Array (HashMap.HM K V) × String :=
@@ -348,6 +410,7 @@ def step (st : St) (ts : List String) : St × String :=
   | "hs" :: r => let (x, o) := famStep (hashed HashMap.hashBytes bytesCodec intCodec 0) st.hs r; ({ st with hs := x }, o)
   | "si" :: r => let (x, o) := famStep (sets HashMap.hashInt intCodec) st.si r; ({ st with si := x }, o)
   | "ss" :: r => let (x, o) := famStep (sets HashMap.hashBytes bytesCodec) st.ss r; ({ st with ss := x }, o)
+  | "cv" :: r => (st, cv r)
   | _ => (st, "bad-op")
 
 end Driver.C02
